@@ -297,6 +297,13 @@ def check_c02(ctx):
     # modifier characters right after the marker: without MODIFIERS (and INTERMEDIATE, which implies it) they start the name
     for t in ["@flour{1} and @&flour{100%g}\n", "#&pan{} and #?lid{}\n", "@?salt{} @+a{} @-b{}\n", "@@x{} ~&rest{5%min}\n", "@&(1)dough{} well\n"]:
         conv_docs.append(dict(text=t, ext=[], conv="bundled", lacking=EXT_BITS["MODIFIERS"] | EXT_BITS["INTERMEDIATE"], uses=["MODIFIERS"], src="modifier-chars"))
+    # `|` in a name, once, twice, at either end: without ALIAS it is an ordinary character of the name
+    for t in ["@white wine|wine{}\n", "@white wine|wine|vino{}\n", "#pot|pan|wok{} and #lid|cover\n", "@a||b{1}\n", "@|a{} @b|{}\n", "~rest|wait{5%min} @x|y|z\n"]:
+        conv_docs.append(dict(text=t, ext=[], conv="bundled", lacking=EXT_BITS["ALIAS"], uses=["ALIAS"], src="pipes"))
+    # bracketed keys, known and unknown ones: without MODES they are plain metadata entries
+    for t in [">> [mode]: steps\n@a{1}\n", ">> [define]: components\n@a{1}\n", ">> [duplicate]: reference\n@a{1} @a{2}\n", ">> [mode]: nonsense\n@a\n",
+              ">> [other]: x\n@a\n", ">> [auto scale]: true\n@a{1}\n"]:
+        conv_docs.append(dict(text=t, ext=[], conv="bundled", lacking=EXT_BITS["MODES"], uses=["MODES"], src="bracketed-keys"))
     pin = os.path.join(ctx.work, "sub_in.ndjson")
     pout = os.path.join(ctx.work, "sub_obs.ndjson")
     psum = os.path.join(ctx.work, "sub_sum.ndjson")
